@@ -12,7 +12,7 @@ ID = 'C15'
 CASE_TYPE = 'C15.case'
 EXTRA_IMPORTS = 'From PJ Require Import Model.Registry.\n'
 RULE = ('registration histories of 1..3 (quick) / 1..5 (thorough) operations over {add, add with explicit name, add_methods(Method), '
-        'add_methods(plain function), add_methods(several Methods / functions / registries in one call), view with / without prefix (a fresh view class or one already registered elsewhere in the history; a member called `show` is inherited from one shared base view), function objects and Method objects may be registered more than once, a view may be derived from a view registered earlier, merge} explicit names handed over as plain str, as members of a (str, Enum) class or as instances of a str subclass with its own __str__ / __format__; on registries with prefix in {none, "", "a", "a.b"}, merged up to '
+        'add_methods(plain function), add_methods(several Methods / functions / registries in one call), view with / without prefix (a fresh view class or one already registered elsewhere in the history; a member called `show` is inherited from one shared base view), function objects and Method objects may be registered more than once, a view may be derived from a view registered earlier, merge} views whose constructor raises KeyError / TypeError / LookupError (their members are registered names all the same); explicit names handed over as plain str, as members of a (str, Enum) class or as instances of a str subclass with its own __str__ / __format__; on registries with prefix in {none, "", "a", "a.b"}, merged up to '
         '3 levels deep, attached to either dispatcher (add_methods(registry) / add / view); small name pools so that collisions and '
         're-registrations occur; probed by dispatching a request for every registered name, every name one prefix segment away, the bare '
         'function and member names, private and non-callable member names. distinct = distinct (history, dispatcher kind); non-trivial = '
@@ -121,6 +121,9 @@ def generate(seed, tier):
         top_ops = group_multi(rnd, top_ops, ('method', 'merge'))
         cases.append({'hist': [None, top_ops], 'async': rnd.random() < 0.5,
                       'nametype': rnd.choice(['plain', 'plain', 'enum', 'strsub'])})
+        if any(op[0] == 'view' for op in top_ops) or rnd.random() < 0.1:
+            if rnd.random() < 0.3:
+                cases[-1]['ctor'] = rnd.choice(['KeyError', 'TypeError', 'LookupError'])
     # fixed scenarios: two views inheriting `show` from the shared base registered under one name (the later one wins); one
     # function registered under a prefix / an explicit name and then again as an unnamed Method / plain function
     for is_async in (False, True):
@@ -245,8 +248,15 @@ def base_view(is_async):
     return _bases[is_async]
 
 
+_ctor = [None]
+
+
 def mkview_new(members, is_async, parent=None):
     body = ''
+    if _ctor[0] and parent is None:
+        # the view cannot be constructed (its constructor looks something up that is not there): requests for its members
+        # fail AFTER the name has been resolved
+        body += '    def __init__(self):\n        raise %s("missing")\n' % _ctor[0]
     inherit = None
     if parent is not None:
         members = [m for m in members if m not in parent[0]]
@@ -312,6 +322,7 @@ def observe(case):
     _fns.clear()
     _methods.clear()
     _nametype[0] = case.get('nametype', 'plain')
+    _ctor[0] = case.get('ctor')
     disp = (AsyncDispatcher if is_async else Dispatcher)()
     apply_ops(disp, case['hist'][1], is_async, top=True)
     keys = sorted(disp.registry.keys())
@@ -336,6 +347,8 @@ def observe(case):
             probes.append((n, doc['result']))
         elif doc['error']['code'] == -32601:
             probes.append((n, None))
+        elif doc['error']['code'] == -32603 and case.get('ctor'):
+            probes.append((n, 4998))      # the name was resolved; the view it belongs to could not be constructed
         else:
             probes.append((n, 4999))      # answered with another error: no function was reached the expected way
     return {'keys': keys, 'probes': probes}
